@@ -211,14 +211,18 @@ def check_operator_circuit(idx: Index, rep: Report):
     from ..rules import numsem
     rule = "K9.identity-term"
     f = idx.function(f"{AU}::get_exponentiated_qubit_operator_circuit")
-    c0, c1 = 0.3, 0.2
     n = 0
-    for zq, ctl in ((1, None), (1, 0), (1, [0]), (0, 2), (1, 3), (1, [0, 2]), (0, [1, 2]), (1, [2, 3]), (2, [3, 0, 1]), (0, [3, 1, 2])):
+    shapes = ((1, None), (1, 0), (1, [0]), (0, 2), (1, 3), (1, [0, 2]), (0, [1, 2]), (1, [2, 3]), (2, [3, 0, 1]), (0, [3, 1, 2]))
+    # coefficients: generic ones for every control shape; then angles at which exp(-i c Z) is a multiple of the identity (-1 for odd multiples of pi: a global
+    # phase without control, a relative phase under control - such a term may not be skipped) or numerically nothing at all, for three control shapes
+    cases = [(0.3, 0.2, zq, ctl) for zq, ctl in shapes]
+    cases += [(c0_, c1_, zq, ctl) for c0_, c1_ in ((0.3, math.pi), (0.25, -3 * math.pi), (0.1, 2 * math.pi), (0.2, 1e-13)) for zq, ctl in ((1, None), (1, 0), (1, [0, 2]))]
+    for c0, c1, zq, ctl in cases:
         for variational in (False, True):
             fo = cs.make_folder(idx, AU, ctors={"Gate": None, "Circuit": lambda a, k: _OpCirc(*a, **k)})
             fo.env["np.pi"] = math.pi
             op = Rec("QubitOperator", {"terms": {(): c0, ((zq, "Z"),): c1}})
-            label = f"exp(-i (c0 + c1 Z{zq})), control={ctl}, variational={variational}"
+            label = f"exp(-i ({c0:g} + {c1:g} Z{zq})), control={ctl}, variational={variational}"
             try:
                 circ, phase = fo.run_function(f.node, {"qubit_op": op, "time": 1., "variational": variational, "trotter_order": 1, "control": ctl,
                                                        "return_phase": True, "pauli_order": None})
